@@ -855,9 +855,10 @@ fn block_walk(ctx: &Ctx, bytes: &[u8], compat: bool, out: &mut Out, depth: u32) 
     nested_items(ctx, "Transaction", r.transactions().iter().map(|x| x.as_slice()), compat, out, depth);
     nested_items(ctx, "UncleBlock", r.uncles().iter().map(|x| x.as_slice()), compat, out, depth);
     nested(ctx, "Header", r.header().as_slice(), compat, out, depth);
-    // The synchronizer bans peers whose block has more than one extra field and runs
-    // `check_data` before `into_view()`: everything below is what the node does next.
-    if extra > 1 {
+    // The synchronizer bans peers whose block has more than one extra field, or one extra
+    // field that does not make it a valid `BlockV1`, and runs `check_data` before
+    // `into_view()`: everything below is what the node does next.
+    if extra > 1 || (extra == 1 && packed::BlockV1Reader::verify(bytes, false).is_err()) {
         out.skipped_guard += 1;
         return;
     }
@@ -949,8 +950,9 @@ fn compact_walk(ctx: &Ctx, bytes: &[u8], compat: bool, out: &mut Out, depth: u32
         out,
         depth,
     );
-    // the relayer bans peers whose compact block has more than one extra field
-    if extra > 1 {
+    // the relayer bans peers whose compact block has more than one extra field, or one extra
+    // field that does not make it a valid `CompactBlockV1`
+    if extra > 1 || (extra == 1 && packed::CompactBlockV1Reader::verify(bytes, false).is_err()) {
         out.skipped_guard += 1;
         return;
     }
